@@ -32,6 +32,8 @@ pub struct FileWatch {
     log_bytes: BTreeMap<String, Vec<u8>>,
     pub renames_to_trash: u64,
     pub unlinks_checked: u64,
+    /// Files each live reader snapshot (held cursor, by slot) depends on.
+    pinned: BTreeMap<usize, BTreeSet<String>>,
 }
 
 fn log_digest(bytes: &[u8]) -> Result<Option<String>, String> {
@@ -63,6 +65,18 @@ fn log_digest(bytes: &[u8]) -> Result<Option<String>, String> {
 }
 
 impl FileWatch {
+    pub fn pin(&mut self, slot: usize, digests: BTreeSet<String>) {
+        self.pinned.insert(slot, digests);
+    }
+
+    pub fn unpin(&mut self, slot: usize) {
+        self.pinned.remove(&slot);
+    }
+
+    pub fn unpin_all(&mut self) {
+        self.pinned.clear();
+    }
+
     fn manifest_line(&mut self, which: &str, line: &str) {
         // lines are "<8 hex crc><action><payload>" or the separator
         if line.len() <= 8 || line == "--------" {
@@ -153,6 +167,12 @@ fn scan_trace(ex: &mut Exec) -> Option<(String, String)> {
                 if let Some(name) = new.strip_prefix("trash/") {
                     w.renames_to_trash += 1;
                     if let Some(digest) = name.strip_suffix(".sst") {
+                        if old.starts_with("sst/") && w.pinned.values().any(|p| p.contains(digest)) {
+                            return Some((
+                                "sst-moved-to-trash-while-a-live-cursor-reads-that-version".into(),
+                                format!("rename {old} -> {new} while a held cursor's snapshot contains {digest} ({})", if w.in_verify { "during a verifier pass" } else { "by the store" }),
+                            ));
+                        }
                         if old.starts_with("sst/") && w.listed.contains(digest) {
                             return Some((
                                 "sst-moved-to-trash-while-manifest-lists-it".into(),
